@@ -707,7 +707,7 @@ def run(tier="quick", seed=0):
                   "B.exhaustive_contents": "AC: 1..2 rows (quick) / 1..3 rows (thorough) of length 0..3; ACGT: 1 row 0..4, 2 rows 0..2",
                   "C.k": "1..31 (capped so that |A|**k < 2**63), 2 layouts of 13-14 rows, total > 128 letters",
                   "D": "flat length 1..%d, 2-D 1..3 x 1..%d" % (Lmax + 2, Lmax), "E.k": "1..31, all texts if |A|**k <= 256 else 8 sampled + extremes",
-                  "V.views": {"ragged": VIEWS, "2d": VIEWS_2D, "flat": VIEWS_FLAT, "per (shape, w, alphabet) in A": 1 if quick else 3,
+                  "V.views": {"ragged": VIEWS, "2d": VIEWS_2D, "flat": VIEWS_FLAT, "per (shape, w, alphabet) in A": "1 (3-row shapes: every other (shape, w))" if quick else 2, "per (k, layout, alphabet) in C": "1 per k" if quick else 3,
                               "alphabets": ["ACGT (bit-packed, ascii->dna, generic-rolling)", "ACG (generic)", "all 7 in C"]},
                   "F.windows": "total windows in {1e6, 2e6} + {-1, 0, +1, +3|+5}, 3000001; k 1..3; ACGT / ACG / ACGTN; layouts: 10 rows with "
                                "300k-1.3M-letter rows, 12k-35k reads of 0..150 letters; axis None (and -1 for two); contiguous and 3 view kinds"}
@@ -921,24 +921,24 @@ def run(tier="quick", seed=0):
             for ai, alph in enumerate(("ACGT", "ACG")):
                 A = len(alph)
                 rows0 = content(lengths, alph, 0)
-                for vi in range((1 if len(lengths) < 3 or (si + w + ai) % 2 == 0 else 0) if quick else 3):
+                for vi in range((1 if len(lengths) < 3 or (si + w + ai) % 2 == 0 else 0) if quick else 2):
                     # per (w, alphabet) the kinds follow each other over the shapes that are taken: every kind meets every window
                     # and alphabet, and (16 kinds against 5 / 7 row lengths) every length of the last and the first rows
                     vcnt[w, ai] = vcnt.get((w, ai), -1) + 1
-                    view = VIEWS[(vcnt[w, ai] + w * 3 + ai * 7 + vi * 4) % len(VIEWS)]
+                    view = VIEWS[(vcnt[w, ai] + w * 3 + ai * 7 + vi * 8) % len(VIEWS)]
                     rows = view_rows(rows0, view)
                     x = si + w + vi
                     check_kmers(col, alph, rows, w, "api", render=False, view=view)
                     if alph == "ACGT":
                         check_kmers(col, alph, rows, w, "text" if x % 2 else "rolling", render=False, view=view)
-                    for k in sorted(set([1 + x % w, w] if quick else range(1, w + 1))):
+                    for k in sorted(set([1 + x % w, w] if quick else [1, 1 + x % w, w])):
                         check_minimizers(col, alph, rows, k, w, view=view)
                     pats = patterns_for(rows, w, alph, False)
-                    for pi, p in enumerate(pats[:2] if quick else pats):
+                    for pi, p in enumerate(pats[:2] if quick else pats[:4]):
                         check_match(col, alph, rows, p, text=(alph == "ACGT" and (x + pi) % 2 == 0),
                                     pat_as="array" if (x + pi) % 3 == 0 else "str", view=view)
                     check_motif(col, alph, rows, w, ("digits", "floats", "ints")[x % 3], text=(x % 2 == 1 and alph == "ACGT"), view=view)
-                    if x % 3 == 0 or not quick:
+                    if x % 3 == 0:
                         check_motif(col, alph, rows, w, "ints", old=True, view=view)
                     if A ** w <= (64 if quick else 256):
                         check_counts(col, alph, rows, w, None if x % 2 else -1, view=view, text=(alph == "ACGT" and x % 4 < 2))
